@@ -816,7 +816,25 @@ func c11RacePass(c *lib.Ctx, sc c11Scenario) {
 	cmd.Env = append(os.Environ(), "GOMAXPROCS=16", "GORACE=halt_on_error=0 exitcode=66")
 	var stderr bytes.Buffer
 	cmd.Stderr = &stderr
-	err := cmd.Run()
+	err := cmd.Start()
+	if err == nil {
+		done := make(chan error, 1)
+		go func() { done <- cmd.Wait() }()
+		limit := 240 * time.Second
+		if c.Thorough() {
+			limit = 900 * time.Second
+		}
+		select {
+		case err = <-done:
+		case <-time.After(limit):
+			// a free run that never ends is a sample, not a verdict: deadlocks are decided by the explorer
+			cmd.Process.Kill()
+			<-done
+			c.Count("race_pass_timeouts", 1)
+			c.Note("race pass of %s did not finish within %v and was stopped (no verdict from it)", sc.Name, limit)
+			return
+		}
+	}
 	out := stderr.String()
 	c.Count("race_pass_runs:"+sc.Name, int64(reps))
 	if strings.Contains(out, "DATA RACE") {
@@ -847,7 +865,7 @@ func init() {
 	lib.Register(&lib.Check{
 		ID: "C11", Level: "model_checking",
 		Rule:      "stateless schedule exploration (iterative context bounding): 11 closed scenarios of 3 threads x 1-3 operations on the real objects - S1 LRU capacity 2 (put/get/size/stats on colliding keys), S10 LRU with two writers of one key, S2 LRU with TTL (get / delete+put / clock advance+sweep+stats), S3 CachedDatabase (cached searches, InvalidateCache, CleanupExpiredCache, GetCacheStats), S11 CachedDatabase with entries ageing past their lifetime (searches vs clock advance + sweep vs stats + invalidate), S4 MonitoredDatabase (monitored searches + report), S5 metrics collector (two threads creating the same new series + histogram + GetAllMetrics), S6 direct SearchUniversal, S7 first searches on the loader's built-in fallback database, S8 SearchCache Put/Get vs InvalidatePattern, S9 counter/gauge increments - every interleaving with <=3 (quick) / <=4 (thorough) preemptions at every Lock/RLock/atomic operation of the code under test; per execution: search answers equal solo answers, the recorded LRU call/return history is linearizable w.r.t. the LRU+TTL model (porcupine), totals equal the calls made, no deadlock / panic. states = executions (each a distinct schedule), transitions = scheduling points, traces validated = executions. Beside it, per scenario, a free-running -race pass (200 / 3000 repetitions) of the same bodies built without the scheduler shims: dynamic analysis, reported under race_pass_runs, not part of the exhaustive count. non-trivial = distinct observed outcomes",
-		Assume:    []string{"scheduling points are the sync and sync/atomic function-API operations of the repository packages (build overlay); plain memory accesses are covered only by the separate race pass", "the shim RWMutex lets new readers pass a waiting writer (superset of Go's behaviours)", "sequential consistency"},
+		Assume:    []string{"scheduling points are the sync and sync/atomic function-API operations of the repository packages (build overlay); plain memory accesses are covered only by the separate race pass", "the shim RWMutex is writer-preferring like Go's (a reader arriving after Lock was called waits for that writer's Unlock)", "sequential consistency"},
 		QuickSecs: 360, ThorSecs: 1800, Graph: true,
 		Run: c11Run,
 		Replay: func(c *lib.Ctx, raw json.RawMessage) []lib.Violation {
